@@ -169,6 +169,38 @@ func runPrec(r *core.Run) {
 		r.Unknown("parseExpressionSuffix switch", fd.Pos(), "no token switch found")
 		return
 	}
+	checkArm := func(key, tok0 string, spec precSpec, f armFacts, pos token.Pos) {
+		// X
+		r.Check(len(uniq(f.ret)) == 1 && f.ret[0] == spec.level, key+" stops below its level", pos, "",
+			fmt.Sprintf("the arm returns when %v < prec; for %s it must be exactly %s < prec (otherwise a tighter-binding context swallows this operator or a looser one refuses it)", uniq(f.ret), tok0, spec.level))
+		// W
+		r.Check(len(uniq(f.setL)) == 1 && f.setL[0] == spec.level, key+" records its level as left precedence", pos, "",
+			fmt.Sprintf("precLeft is set to %v after the operator; it must be %s", uniq(f.setL), spec.level))
+		// Z
+		wantR := spec.right
+		if wantR == "" {
+			if spec.assoc == "left" {
+				wantR = succ(spec.level)
+			} else {
+				wantR = spec.level
+			}
+		}
+		r.Check(len(uniq(f.right)) == 1 && f.right[0] == wantR, key+" parses its right operand at the right level", pos, "",
+			fmt.Sprintf("right operand is parsed with parseExpression(%v); %s-associative %s requires %s (wrong level changes grouping: a-b-c, a**b**c, a<b==c ...)", uniq(f.right), spec.assoc, spec.level, wantR))
+		// Y
+		switch spec.minL {
+		case "-":
+		case "":
+			r.Check(len(uniq(f.minL)) == 1 && f.minL[0] == spec.level, key+" requires a left operand of its level", pos, "", fmt.Sprintf("left operand must have precedence >= %s, found test against %v", spec.level, uniq(f.minL)))
+		default:
+			parts := strings.Split(spec.minL, "|")
+			ok := len(uniq(f.minL)) == 1 && f.minL[0] == parts[0]
+			if len(parts) == 2 {
+				ok = ok && len(uniq(f.neqL)) == 1 && f.neqL[0] == parts[1]
+			}
+			r.Check(ok, key+" restricts its left operand", pos, "", fmt.Sprintf("left operand must satisfy precLeft >= %s (found tests < %v, != %v): forbidden combinations (-a**b, a||b??c, assignment to a binary expression) would be accepted", spec.minL, uniq(f.minL), uniq(f.neqL)))
+		}
+		}
 	covered := map[string]bool{}
 	arms := 0
 	for _, c := range sw.Body.List {
@@ -197,41 +229,39 @@ func runPrec(r *core.Run) {
 		}
 		r.Check(same, key+" groups operators of one precedence level", cc.Pos(), strings.Join(toks, ","), fmt.Sprintf("tokens %v are handled by one arm but do not share one ECMAScript precedence level/associativity", toks))
 		f := collectArm(pk, cc.Body)
-		// X
-		r.Check(len(uniq(f.ret)) == 1 && f.ret[0] == spec.level, key+" stops below its level", cc.Pos(), "",
-			fmt.Sprintf("the arm returns when %v < prec; for %s it must be exactly %s < prec (otherwise a tighter-binding context swallows this operator or a looser one refuses it)", uniq(f.ret), toks[0], spec.level))
-		// W
-		r.Check(len(uniq(f.setL)) == 1 && f.setL[0] == spec.level, key+" records its level as left precedence", cc.Pos(), "",
-			fmt.Sprintf("precLeft is set to %v after the operator; it must be %s", uniq(f.setL), spec.level))
-		// Z
-		wantR := spec.right
-		if wantR == "" {
-			if spec.assoc == "left" {
-				wantR = succ(spec.level)
-			} else {
-				wantR = spec.level
-			}
-		}
-		r.Check(len(uniq(f.right)) == 1 && f.right[0] == wantR, key+" parses its right operand at the right level", cc.Pos(), "",
-			fmt.Sprintf("right operand is parsed with parseExpression(%v); %s-associative %s requires %s (wrong level changes grouping: a-b-c, a**b**c, a<b==c ...)", uniq(f.right), spec.assoc, spec.level, wantR))
-		// Y
-		switch spec.minL {
-		case "-":
-		case "":
-			r.Check(len(uniq(f.minL)) == 1 && f.minL[0] == spec.level, key+" requires a left operand of its level", cc.Pos(), "", fmt.Sprintf("left operand must have precedence >= %s, found test against %v", spec.level, uniq(f.minL)))
-		default:
-			parts := strings.Split(spec.minL, "|")
-			ok := len(uniq(f.minL)) == 1 && f.minL[0] == parts[0]
-			if len(parts) == 2 {
-				ok = ok && len(uniq(f.neqL)) == 1 && f.neqL[0] == parts[1]
-			}
-			r.Check(ok, key+" restricts its left operand", cc.Pos(), "", fmt.Sprintf("left operand must satisfy precLeft >= %s (found tests < %v, != %v): forbidden combinations (-a**b, a||b??c, assignment to a binary expression) would be accepted", spec.minL, uniq(f.minL), uniq(f.neqL)))
-		}
+		checkArm(key, toks[0], spec, f, cc.Pos())
 	}
+	// operators without a switch case of their own: the arm may be driven by data (a look-up function or table giving
+	// the levels per operator); the same four facts are then read off the function specialised to that operator (peval.go)
+	tokVal := map[string]int64{}
+	for n, c := range constsOfType(pk, "TokenType") {
+		tokVal[n] = mustInt(c.ExactString())
+	}
+	precName := map[int64]string{}
+	for n, v := range vals {
+		precName[v] = n
+	}
+	var uncovered []string
 	for t := range ecmaOps {
 		if !covered[t] {
-			r.Fail("operator "+t+" has an arm", sw.Pos(), "binary/assignment operator "+t+" is not handled by parseExpressionSuffix")
+			uncovered = append(uncovered, t)
 		}
+	}
+	sort.Strings(uncovered)
+	for _, t := range uncovered {
+		tv, known := tokVal[t]
+		if !known {
+			r.BrokenAnchor("js." + t)
+			continue
+		}
+		f, handled, pos := peSuffixFacts(r, tv, precName)
+		if !handled {
+			r.Fail("operator "+t+" has an arm", sw.Pos(), "binary/assignment operator "+t+" is not handled by parseExpressionSuffix")
+			continue
+		}
+		arms++
+		covered[t] = true
+		checkArm("arm "+t, t, ecmaOps[t], f, pos)
 	}
 	r.Floor("operator arms", arms, 10)
 
@@ -251,6 +281,7 @@ func runPrec(r *core.Run) {
 		return
 	}
 	checked := 0
+	peNeeded := false
 	for _, b := range fn.Blocks {
 		for _, in := range b.Instrs {
 			c, ok := in.(*ssa.Call)
@@ -286,13 +317,20 @@ func runPrec(r *core.Run) {
 				if allUpdate {
 					wantName, want = "OpUpdate", vals["OpUpdate"]
 				}
+				if !isC {
+					// the left precedence is computed (op, opPrec := prefixOperator(tt)): decided per prefix operator below
+					peNeeded = true
+					continue
+				}
 				good := isC && k.Value != nil && k.Int64() == want
 				r.Check(good, fmt.Sprintf("parseExpression prefix operator path #%d enters the suffix loop as %s", checked, wantName), lp.Block().Preds[i].Instrs[0].Pos(), "",
 					"a prefix expression reaches parseExpressionSuffix with the wrong left precedence (ECMAScript: ++x and --x are UpdateExpressions, every other prefix operator yields a UnaryExpression): with OpUnary for ++x the valid `++a ** b` is rejected; with anything but OpUnary for the others `-a ** b` or `-2 = x` would be accepted")
 			}
 		}
 	}
-	r.Floor("prefix operator paths", checked, 2)
+	if !peNeeded {
+		r.Floor("prefix operator paths", checked, 2)
+	}
 	// prefix arms: operand parsed at OpUnary, refused when OpUnary/OpUpdate < prec
 	pfd, _ := r.Prog.FuncDecl("js", "Parser", "parseExpression")
 	var psw *ast.SwitchStmt
@@ -319,10 +357,107 @@ func runPrec(r *core.Run) {
 				continue
 			}
 			f := collectArm(pk, cc.Body)
+			if len(f.ret) == 0 || len(f.right) == 0 {
+				peNeeded = true // the arm's levels are data (a look-up per operator): decided below
+				continue
+			}
 			r.Check(len(uniq(f.ret)) == 1 && f.ret[0] == want, "prefix arm "+t0+" is refused in tighter contexts", cc.Pos(), "", fmt.Sprintf("found test %v < prec, want %s < prec", uniq(f.ret), want))
 			r.Check(len(uniq(f.right)) == 1 && f.right[0] == "OpUnary", "prefix arm "+t0+" parses its operand as a UnaryExpression", cc.Pos(), "", fmt.Sprintf("operand parsed with parseExpression(%v), want OpUnary", uniq(f.right)))
 		}
 	}
+	if peNeeded {
+		// parseExpression specialised to each prefix operator (peval.go)
+		precName := map[int64]string{}
+		for n, v := range vals {
+			precName[v] = n
+		}
+		for _, t := range []string{"NotToken", "BitNotToken", "TypeofToken", "VoidToken", "DeleteToken", "AddToken", "SubToken", "IncrToken", "DecrToken"} {
+			tv, known := tokVals[t]
+			if !known {
+				r.BrokenAnchor("js." + t)
+				continue
+			}
+			want := "OpUnary"
+			if t == "IncrToken" || t == "DecrToken" {
+				want = "OpUpdate"
+			}
+			ret, right, enters, pos, ok := pePrefixFacts(r, tv, precName)
+			if !ok {
+				r.Unknown("prefix arm "+t, fn.Pos(), "parseExpression could not be specialised to this operator")
+				continue
+			}
+			checked++
+			r.Check(len(uniq(ret)) == 1 && ret[0] == want, "prefix arm "+t+" is refused in tighter contexts", pos, "", fmt.Sprintf("found test %v < prec, want %s < prec", uniq(ret), want))
+			r.Check(len(uniq(right)) == 1 && right[0] == "OpUnary", "prefix arm "+t+" parses its operand as a UnaryExpression", pos, "", fmt.Sprintf("operand parsed with parseExpression(%v), want OpUnary", uniq(right)))
+			r.Check(len(uniq(enters)) == 1 && enters[0] == want, "prefix operator "+t+" enters the suffix loop as "+want, pos, "",
+				fmt.Sprintf("a prefix expression reaches parseExpressionSuffix with left precedence %v (ECMAScript: ++x and --x are UpdateExpressions, every other prefix operator yields a UnaryExpression)", uniq(enters)))
+		}
+		r.Floor("prefix operator paths", checked, 2)
+	}
+}
+
+// pePrefixFacts: for prefix operator tok, the level below which parseExpression refuses it, the level its operand is
+// parsed at, and the left precedence with which the suffix loop is entered.
+func pePrefixFacts(r *core.Run, tok int64, precName map[int64]string) (ret, right, enters []string, pos token.Pos, ok bool) {
+	paths, pe := peArm(r, "parseExpression", tok, map[int]string{1: "prec"})
+	if pe == nil || paths == nil {
+		return nil, nil, nil, token.NoPos, false
+	}
+	name := func(k int64) string {
+		if n, has := precName[k]; has {
+			return n
+		}
+		return fmt.Sprint(k)
+	}
+	for _, pt := range paths {
+		consumed := false
+		var parse, suffix *peEvent
+		failed := false
+		for i := range pt.events {
+			switch pt.events[i].name {
+			case "next":
+				consumed = true
+			case "parseExpression":
+				if parse == nil {
+					parse = &pt.events[i]
+				}
+			case "parseExpressionSuffix":
+				if suffix == nil {
+					suffix = &pt.events[i]
+				}
+			case "fail", "failMessage":
+				failed = true
+			}
+		}
+		switch {
+		case consumed && parse != nil:
+			ok = true
+			pos = parse.pos
+			if len(parse.args) == 2 {
+				if k, isK := peInt(parse.args[1]); isK {
+					right = append(right, name(k))
+				} else {
+					right = append(right, "?")
+				}
+			}
+			if suffix != nil && len(suffix.args) == 4 {
+				if k, isK := peInt(suffix.args[3]); isK {
+					enters = append(enters, name(k))
+				} else {
+					enters = append(enters, "?")
+				}
+			}
+		case !consumed && pt.outcome == "return":
+			// refused (here with a parse error: `if opPrec < prec { p.fail(…); return nil }`)
+			_ = failed
+			for _, c := range pt.conds {
+				if c.sym == "prec" && c.op == token.GTR {
+					ret = append(ret, name(c.k))
+				}
+			}
+		}
+	}
+	return
 }
 
 // isUnaryAlloc: the value is (an interface holding) a freshly allocated *UnaryExpr.
@@ -403,3 +538,89 @@ func constLeaves(v ssa.Value, depth int) []int64 {
 }
 
 var _ = core.ModPath
+
+// peSuffixFacts: the facts of the arm that parseExpressionSuffix executes for token tok, from its paths with the
+// token fixed and prec / precLeft symbolic. handled: some path consumes the token and parses a right operand.
+func peSuffixFacts(r *core.Run, tok int64, precName map[int64]string) (armFacts, bool, token.Pos) {
+	var f armFacts
+	fn := r.Prog.SSAFunc("js", "Parser", "parseExpressionSuffix")
+	if fn == nil || len(fn.Params) != 4 {
+		return f, false, token.NoPos
+	}
+	paths, pe := peArm(r, "parseExpressionSuffix", tok, map[int]string{2: "prec", 3: "precLeft"})
+	if pe == nil || paths == nil {
+		return f, false, token.NoPos
+	}
+	name := func(k int64) string {
+		if n, ok := precName[k]; ok {
+			return n
+		}
+		return fmt.Sprint(k)
+	}
+	has := func(pt pePath, names ...string) *peEvent {
+		for i := range pt.events {
+			for _, n := range names {
+				if pt.events[i].name == n {
+					return &pt.events[i]
+				}
+			}
+		}
+		return nil
+	}
+	// the phi that carries precLeft around the loop: the one whose value on entry is the parameter
+	var leftPhi *ssa.Phi
+	for _, b := range fn.Blocks {
+		for _, in := range b.Instrs {
+			if ph, ok := in.(*ssa.Phi); ok {
+				for _, e := range ph.Edges {
+					if e == ssa.Value(fn.Params[3]) {
+						leftPhi = ph
+					}
+				}
+			}
+		}
+	}
+	handled := false
+	pos := fn.Pos()
+	for _, pt := range paths {
+		consumed := has(pt, "next") != nil
+		parse := has(pt, "parseExpression")
+		failed := has(pt, "fail", "failMessage") != nil
+		switch {
+		case consumed && parse != nil:
+			handled = true
+			pos = parse.pos
+			if len(parse.args) == 2 {
+				if k, ok := peInt(parse.args[1]); ok {
+					f.right = append(f.right, name(k))
+				} else {
+					f.right = append(f.right, "?")
+				}
+			}
+			if pt.outcome == "backedge" && leftPhi != nil {
+				if k, ok := peInt(pt.phis[leftPhi]); ok {
+					f.setL = append(f.setL, name(k))
+				} else {
+					f.setL = append(f.setL, "?")
+				}
+			}
+		case failed && !consumed:
+			for _, c := range pt.conds {
+				if c.sym == "precLeft" && c.op == token.LSS {
+					f.minL = append(f.minL, name(c.k))
+				}
+				if c.sym == "precLeft" && c.op == token.NEQ {
+					f.neqL = append(f.neqL, name(c.k))
+				}
+			}
+		case pt.outcome == "return" && !consumed && !failed:
+			for _, c := range pt.conds {
+				if c.sym == "prec" && c.op == token.GTR {
+					f.ret = append(f.ret, name(c.k))
+				}
+			}
+		}
+	}
+	f.pos = pos
+	return f, handled, pos
+}
